@@ -9,7 +9,11 @@ THEOREMS = ["apply_conforming", "stated_place_wins", "section_writes_new_version
             "script_conf", "script_wf", "normal_diff_applies", "normal_diff_reverses", "unified_header_scan",
             "unified_header_scan_index", "unified_header_scan_blank", "patch_applies_end_to_end",
             "patch_applies_end_to_end_index", "patch_p1_applies", "run_patch_end_to_end", "run_patch_file_end_to_end",
-            "sections_apply", "git_patch_applies"]
+            "sections_apply", "git_patch_applies",
+            "conforming_norm", "context_patch_applies_end_to_end", "context_patch_applies_end_to_end_index",
+            "context_patch_reverses_end_to_end", "run_patch_context_end_to_end", "normal_patch_applies_end_to_end",
+            "normal_patch_applies_operand", "normal_patch_reverses_end_to_end", "normal_patch_reverses_operand",
+            "run_patch_normal_end_to_end", "run_patch_normal_operand"]
 
 K20 = ("K20-top-insertion", "context-free insertion at the top of a non-empty file (diff -U0 '@@ -0,0 +1 @@', normal '0a1', -C0 '*** 0 ****') is rejected")
 K21 = ("K21-zero-context-operation", "zero-context diff whose first hunk removes line 1 ('@@ -1 +0,0 @@', normal '1d0') is taken for a file deletion: 'Not deleting file' + exit 1 although the content is right")
